@@ -18,6 +18,8 @@ pub struct Scenario {
     pub callers: Vec<usize>,
     /// fail the k-th tracked allocation counted from the start of rendering (None = no fault)
     pub fault: Option<usize>,
+    /// number of schedule deviations this scenario is explored with below the tier's bound (all-k fault families)
+    pub dev_less: usize,
 }
 
 pub fn render_hash(img: &JxlImage, k: usize) -> Result<u64, String> {
@@ -106,9 +108,22 @@ pub fn judge(sc: &Scenario, reference: &[Result<u64, String>], rr: &RunResult) -
     None
 }
 
+/// Number of tracked allocation attempts of a sequential, unfaulted render of the given keyframes.
+pub fn alloc_points(bytes: &[u8], callers: &[usize]) -> usize {
+    let (img, tracker) = open_tracked(bytes).expect("scenario stream decodes");
+    let base = tracker.verif_attempts();
+    let mut ks: Vec<usize> = callers.to_vec();
+    ks.sort();
+    ks.dedup();
+    for k in ks {
+        let _ = render_hash(&img, k);
+    }
+    tracker.verif_attempts() - base
+}
+
 pub fn scenarios(quick: bool) -> Vec<Scenario> {
     let mut v = vec![];
-    let mut add = |name: &str, item: &str, callers: Vec<usize>, fault: Option<usize>| v.push(Scenario { name: name.into(), item: item.into(), callers, fault });
+    let mut add = |name: &str, item: &str, callers: Vec<usize>, fault: Option<usize>| v.push(Scenario { name: name.into(), item: item.into(), callers, fault, dev_less: 0 });
     add("single-2same", "gray-5x3", vec![0, 0], None);
     add("single-3same", "gray-5x3", vec![0, 0, 0], None);
     add("ref+blend-2same", "ref-then-blend-alpha16", vec![0, 0], None);
@@ -135,6 +150,34 @@ pub fn scenarios(quick: bool) -> Vec<Scenario> {
             add(&format!("ref+blend-3same-fault{k}"), "ref-then-blend-alpha16", vec![0, 0, 0], Some(k));
             add(&format!("lfframe-2same-fault{k}"), "vardct-lfframe-40x24", vec![0, 0], Some(k));
             add(&format!("patches-2same-fault{k}"), "rgba-24x20-patches", vec![0, 0], Some(k));
+        }
+    }
+    // EVERY tracked allocation of the render as the fault point (the sampled indices above miss faults that land in a
+    // particular stage, e.g. the int-to-float conversion before compositing): the number of allocation attempts N of a
+    // sequential render of the callers' keyframes is measured on the real code, then k = 0..N.
+    let all = corpus();
+    let fams: Vec<(&str, &str, Vec<usize>)> = if quick {
+        vec![("ref+blend-2same", "ref-then-blend-alpha16", vec![0, 0]), ("anim-2same-first", "anim-12x10-3kf", vec![0, 0])]
+    } else {
+        vec![
+            ("ref+blend-2same", "ref-then-blend-alpha16", vec![0, 0]),
+            ("chain-2diff", "layers-chain-two-kf", vec![1, 0]),
+            ("anim-2same-first", "anim-12x10-3kf", vec![0, 0]),
+            ("anim-2same", "anim-12x10-3kf", vec![1, 1]),
+            ("anim-2diff", "anim-12x10-3kf", vec![2, 1]),
+            ("lfframe-2same", "vardct-lfframe-40x24", vec![0, 0]),
+            ("patches-2same", "rgba-24x20-patches", vec![0, 0]),
+        ]
+    };
+    for (name, item, callers) in fams {
+        let bytes = &all.iter().find(|i| i.name == item).expect("corpus item").bytes;
+        let n = alloc_points(bytes, &callers);
+        for k in 0..n {
+            let nm = format!("{name}-fault{k}");
+            if v.iter().any(|s: &Scenario| s.name == nm) {
+                continue;
+            }
+            v.push(Scenario { name: nm, item: item.into(), callers: callers.clone(), fault: Some(k), dev_less: 1 });
         }
     }
     v
@@ -209,7 +252,7 @@ pub fn main(args: &crate::Args) {
         let reference: Vec<Result<u64, String>> = (0..img.num_loaded_keyframes()).map(|k| render_hash(&img, k)).collect();
         drop(img);
         let mut out = ScOut { runs: 0, capped: false, states: vec![], outcomes: vec![], viol: None, max_points: 0 };
-        let (runs, capped) = crate::explore::explore_part(bound, cap / NPARTS, part, NPARTS, |t| {
+        let (runs, capped) = crate::explore::explore_part(bound - sc.dev_less, cap / NPARTS, part, NPARTS, |t| {
             let rr = run_once(bytes, sc, std::mem::take(t));
             let v = judge(sc, &reference, &rr);
             out.max_points = out.max_points.max(rr.outcome.points);
@@ -290,7 +333,7 @@ pub fn main(args: &crate::Args) {
         }
         crate::tsan::raise(&mut rep, crate::tsan::pass(&jobs, "every scenario's caller threads on one shared image, without a pool and with a 2-thread rayon pool"));
     }
-    rep.rule = format!("{} scenarios (images: single frame, ReferenceOnly+blended keyframe, 3-keyframe animation sharing reference slots, layered chain with two keyframes; 2 or 3 caller threads on the same or different keyframes; with and without one injected allocation failure at the k-th tracked allocation) x ALL schedules within {bound} deviations from the default schedule (continue the running thread, else lowest id) at every lock / condvar-wait scheduling point of the render-handle protocol; executions run to completion on the real code under the cooperative scheduler; oracle: no deadlock, every caller returns, every Ok equals the sequential render bit for bit, errors only with an injected fault, no two concurrent executions and no repeated execution of a frame's render operation.", scs.len());
+    rep.rule = format!("{} scenarios (images: single frame, ReferenceOnly+blended keyframe, 3-keyframe animation sharing reference slots, layered chain with two keyframes; 2 or 3 caller threads on the same or different keyframes; with and without one injected allocation failure at the k-th tracked allocation: sampled k for all families, and EVERY k below the measured number of allocation attempts of a sequential render for the all-k families, which are explored with one deviation less than the others) x ALL schedules within {bound} deviations from the default schedule (continue the running thread, else lowest id) at every lock / condvar-wait scheduling point of the render-handle protocol; executions run to completion on the real code under the cooperative scheduler; oracle: no deadlock, every caller returns, every Ok equals the sequential render bit for bit, errors only with an injected fault, no two concurrent executions and no repeated execution of a frame's render operation.", scs.len());
     rep.sample(json!({"scenario": scs[3].name, "callers": scs[3].callers, "max_scheduling_points": outs[3].max_points, "schedules": outs[3].runs}));
     rep.sample(json!({"scenario": scs[scs.len() - 1].name, "callers": scs[scs.len() - 1].callers, "fault": scs[scs.len() - 1].fault, "schedules": outs[scs.len() - 1].runs}));
     rep.extra.insert("deviation_bound".into(), json!(bound));
@@ -316,6 +359,7 @@ fn replay(path: &str) -> ! {
         item: sj["item"].as_str().unwrap().into(),
         callers: sj["callers"].as_array().unwrap().iter().map(|x| x.as_u64().unwrap() as usize).collect(),
         fault: sj["fault"].as_u64().map(|x| x as usize),
+        dev_less: 0,
     };
     let bytes = crate::report::unhex(v["stream_hex"].as_str().unwrap());
     let tape: Vec<u32> = v["schedule_tape"].as_array().unwrap().iter().map(|x| x.as_u64().unwrap() as u32).collect();
